@@ -1,5 +1,6 @@
 """C07 — Only legal Hamiltonian terms with positive weight are ever stored."""
 from checks import extra_audits
+from checks import api_cov
 LEAN_TARGETS = ["QmcProps.C07", "drv_c06", "drv_c07"]
 BINS = ["c06"]
 
@@ -72,4 +73,5 @@ def main(ck):
         # fixed, seed-independent witness of finding F25 (can_swap_managers accepts h = 0 with h != 0): the
         # oracle column FAILs on the unchanged library; known_findings.json turns it into KNOWN-FINDING
         ck.correspond("swap-guard-witness", "drv_c07", ck.harness("c06", ["swapwit"]))
+    api_cov.run(ck, "c07")   # otherwise unexercised public API, model-free oracles of this property
     return ck.finish(RULE)
